@@ -159,6 +159,17 @@ def abs (s : MemBackend) : Spec :=
 
 end MemBackend
 
+/-! ## `NullStorageBackend`: stateless, never reports anything as memoized -/
+
+def nullStep : Op → Out
+  | .getm ks => .mems (ks.map (fun _ => none))
+  | .lookread _ _ => .val none
+  | .ismem _ _ => .bool false
+  | .lsf => .fns []
+  | .lsm _ => .memset []
+  | .rmeta _ _ _ => .bytes none
+  | _ => .unit
+
 /-! ## The versioned object store (`_FilesystemDataSource`) with structured keys -/
 
 inductive K
